@@ -68,6 +68,20 @@ def correction (robust : Bool) (sw : List (Rat × Rat)) (q : Rat) : Option Rat :
 def finalLower (l c w part : Rat) : Int := rhe (rmax ((l - c) * w + w) part)
 def finalUpper (u c w part : Rat) : Int := rhe (rmax ((u + c) * w + w) part)
 
+/-! ### leave-one-out view of the calibration set (counting core of split-conformal coverage, equal weights) -/
+
+/-- calibration scores with unit weights -/
+def unitW (l : List Rat) : List (Rat × Rat) := l.map (fun s => (s, (1 : Rat)))
+
+/-- leave-one-out correction: computed from every score but the `i`-th, with equal weights -/
+def looCorrection (l : List Rat) (q : Rat) (i : Nat) : Option Rat := popCorrection (unitW (l.eraseIdx i)) q
+
+/-- is the `i`-th score inside the interval widened by the correction computed from the other scores? -/
+def covered (l : List Rat) (q : Rat) (i : Nat) : Bool :=
+  match looCorrection l q i with
+  | some c => decide (l.getD i 0 ≤ c)
+  | none => false
+
 /-! ### no covariates: the weighted median and the uniform swing (C05) -/
 
 /-- weighted median as a quantile-regression solution at τ = ½ with an intercept only:
